@@ -64,6 +64,15 @@ CHECKS["C05"] = dict(
     note="Trusted: pysym interpreter/models (deepcopy = interpreted stdlib copy), grammar recognisers, z3. Whitespace-only separators/indents, no duplicate keys, @comment bodies not ending in a backslash after stripping.",
     ref="§4 C05")
 
+CHECKS["C17"] = dict(
+    text="Field keys (1-2 symbolic characters over {a,A,b,B}) of entries with 0..4 (thorough 5) fields and the keys of the custom order are symbolic; the three real middlewares (sorting through the engine's stable-sort model calling the interpreted key functions) run twice each; z3 decides per final world permutation, order by key / by rank in the order (case folding as configured), stability, constructor rejection exactly on folded duplicates, last-wins normalisation against an interpreted oracle, idempotence and untouched type/key/other blocks.",
+    note="Trusted: pysym interpreter/models incl. the sorted() model, z3.",
+    ref="§4 C17")
+CHECKS["C19"] = dict(
+    text="Mapping: pre-states of 0..3 fields with symbolic distinct keys and every sequence of 1..2 (thorough 3) operations with symbolic key arguments are executed symbolically on the real Entry next to a dictionary subjected to the same operations; z3 decides equal results and equal fields / fields_dict / items() views after every step. Equality: pairs of blocks/fields of every kind with all attributes symbolic; z3 decides a == b iff same class and all attributes equal, and that copy / deepcopy (interpreted stdlib) are equal but distinct objects.",
+    note="Trusted: pysym interpreter/models (the oracle dictionary is the engine's dict model), z3.",
+    ref="§4 C19")
+
 NOT_YET = "check not built yet in this round (engine exists; harness pending)"
 
 def main():
